@@ -53,6 +53,16 @@ pub struct Shared {
     waker: Option<Waker>,
     pub out: Vec<OutRec>,
     pub write_plan: VecDeque<WriteStep>,
+    /// back-pressure: every write call accepts at most `.0` bytes, then the transport is not
+    /// writable for `.1` of virtual time
+    pub write_chunking: Option<(usize, Duration)>,
+    wsleep: Option<Pin<Box<Sleep>>>,
+    wstall_armed: bool,
+    /// ready reads since the transport last made its task yield. A real tokio socket takes part in
+    /// cooperative scheduling (a task is forced to yield after 128 ready operations); without this an
+    /// always-ready scripted transport would let the session monopolise the single-threaded runtime,
+    /// and no command could ever be delivered while input is available.
+    ready_reads_since_yield: u32,
     pub read_polls: u64,
     pub read_polls_since_progress: u64,
     pub max_read_polls_without_progress: u64,
@@ -88,6 +98,10 @@ pub fn sim_io(script: Vec<In>, seq: Seq) -> (SimIo, Handle) {
         waker: None,
         out: vec![],
         write_plan: VecDeque::new(),
+        write_chunking: None,
+        wsleep: None,
+        wstall_armed: false,
+        ready_reads_since_yield: 0,
         read_polls: 0,
         read_polls_since_progress: 0,
         max_read_polls_without_progress: 0,
@@ -121,6 +135,9 @@ impl Handle {
     }
     pub fn set_responder(&self, r: Responder) {
         self.0.lock().unwrap().responder = Some(r);
+    }
+    pub fn set_write_chunking(&self, bytes: usize, stall: Duration) {
+        self.0.lock().unwrap().write_chunking = Some((bytes.max(1), stall));
     }
     pub fn set_write_plan(&self, plan: Vec<WriteStep>) {
         self.0.lock().unwrap().write_plan = plan.into();
@@ -211,6 +228,13 @@ impl AsyncRead for SimIo {
                         // a zero-capacity read would look like EOF to the caller
                         return Poll::Ready(Ok(()));
                     }
+                    if s.ready_reads_since_yield >= 64 {
+                        s.ready_reads_since_yield = 0;
+                        s.read_polls_since_progress = s.read_polls_since_progress.saturating_sub(1);
+                        cx.waker().wake_by_ref();
+                        return Poll::Pending;
+                    }
+                    s.ready_reads_since_yield += 1;
                     let n = (c.len() - s.cur_off).min(buf.remaining());
                     buf.put_slice(&c[s.cur_off..s.cur_off + n]);
                     s.cur_off += n;
@@ -234,16 +258,44 @@ impl AsyncRead for SimIo {
 impl AsyncWrite for SimIo {
     fn poll_write(
         self: Pin<&mut Self>,
-        _cx: &mut Context<'_>,
+        cx: &mut Context<'_>,
         data: &[u8],
     ) -> Poll<std::io::Result<usize>> {
         let mut guard = self.shared.lock().unwrap();
         let s = &mut *guard;
         s.write_polls += 1;
+        if let Some((_, stall)) = s.write_chunking {
+            if s.wstall_armed {
+                if s.wsleep.is_none() {
+                    s.wsleep = Some(Box::pin(tokio::time::sleep(stall)));
+                }
+                match s.wsleep.as_mut().unwrap().as_mut().poll(cx) {
+                    Poll::Pending => return Poll::Pending,
+                    Poll::Ready(()) => {
+                        s.wsleep = None;
+                        s.wstall_armed = false;
+                    }
+                }
+            }
+        }
+        // writes take part in the cooperative budget like reads do
+        if s.ready_reads_since_yield >= 64 {
+            s.ready_reads_since_yield = 0;
+            cx.waker().wake_by_ref();
+            return Poll::Pending;
+        }
+        s.ready_reads_since_yield += 1;
         let n = match s.write_plan.pop_front() {
             None => data.len(),
             Some(WriteStep::AcceptAtMost(k)) => data.len().min(k.max(1)),
             Some(WriteStep::Fail(kind)) => return Poll::Ready(Err(std::io::Error::from(kind))),
+        };
+        let n = match s.write_chunking {
+            Some((k, _)) => {
+                s.wstall_armed = true;
+                n.min(k)
+            }
+            None => n,
         };
         let at = Instant::now().saturating_duration_since(s.start);
         let seq = s.seq.next();
